@@ -31,7 +31,7 @@ func init() {
 	register(&CheckDef{
 		ID:    "C11",
 		Title: "Block/chunk framing round-trips every record at every offset",
-		Reach: []string{"done", "multi-chunk", "padded-tail", "both-io-compared"},
+		Reach: []string{"done", "multi-chunk", "padded-tail", "both-io-compared", "reopened", "reopened-with-padded-tail"},
 		Jobs: func(tier string) []JobSpec {
 			var js []JobSpec
 			add := func(name string, b int, params map[string]int64) {
@@ -42,6 +42,10 @@ func init() {
 				add("B32-std-2rec", 32, p("n", 2, "maxlen", 34, "io", 0))
 				add("B32-mmap-1rec", 32, p("n", 1, "maxlen", 70, "io", 1))
 				add("B32-std-batch2", 32, p("n", 2, "maxlen", 34, "io", 0, "batch", 1))
+				// close, reopen (same / other back-end), read everything again, append one more record
+				add("B32-std-1rec-reopen-append", 32, p("n", 1, "maxlen", 40, "io", 0, "reopen", 1))
+				add("B32-mmap-1rec-reopen-std-append", 32, p("n", 1, "maxlen", 40, "io", 1, "reopen", 1, "r_io", 1))
+				add("B32-std-1rec-reopen-mmap-append", 32, p("n", 1, "maxlen", 40, "io", 0, "reopen", 1, "r_io", 2))
 				js = append(js, JobSpec{Name: "B32-both-io-2rec", Harness: "datafile", Func: "verifHarnessC11BothIO", Params: p("n", 2, "maxlen", 34), Scale: scaleDF(32), ConcCap: 256})
 				// mmap granule scaled to 48 so that one record crosses one or two remap boundaries
 				js = append(js, JobSpec{Name: "B32-mmap48-1rec", Harness: "datafile", Func: "verifHarnessC11Scaled", Params: p("n", 1, "maxlen", 100, "io", 1),
@@ -57,6 +61,9 @@ func init() {
 				add("B32-std-batch3", 32, p("n", 3, "maxlen", 34, "io", 0, "batch", 1))
 				add("B32-mmap-batch2", 32, p("n", 2, "maxlen", 70, "io", 1, "batch", 1))
 				add("B64-std-2rec", 64, p("n", 2, "maxlen", 70, "io", 0))
+				add("B32-std-2rec-reopen-append", 32, p("n", 2, "maxlen", 40, "io", 0, "reopen", 1))
+				add("B32-mmap-2rec-reopen-append", 32, p("n", 2, "maxlen", 40, "io", 1, "reopen", 1))
+				add("B64-std-1rec-reopen-mmap-append", 64, p("n", 1, "maxlen", 70, "io", 0, "reopen", 1, "r_io", 2))
 			}
 			// real 32 KiB geometry: solver-enumerated lengths in the boundary classes
 			realStd := map[string]string{}
